@@ -101,6 +101,11 @@ func (vm valueModel) cons(c m.ConsM, expr hclsyntax.Expression, depth int) (Valu
 		return vm.typed(v.Type(), expr, false, depth)
 	case "keyword":
 		st, ok := expr.(*hclsyntax.ScopeTraversalExpr)
+		if ok && len(st.Traversal) > 1 && st.Traversal.RootName() == c.Kw {
+			// the keyword followed by further steps (kw.name, kw[0]) is a reference, not the
+			// keyword: nothing in it is a schema-known element under a keyword constraint
+			return out, true
+		}
 		if !ok || len(st.Traversal) != 1 || st.Traversal.RootName() != c.Kw {
 			return out, false
 		}
